@@ -3,6 +3,7 @@ package ev
 import (
 	"fmt"
 	"runtime/debug"
+	"strings"
 
 	"pgregory.net/rapid"
 )
@@ -20,8 +21,34 @@ func (r *Rec) Fail(t *rapid.T, msg string, c any) {
 func Safe(oracle func() string) (msg string) {
 	defer func() {
 		if p := recover(); p != nil {
-			msg = fmt.Sprintf("panic: %v\n%s", p, debug.Stack())
+			msg = fmt.Sprintf("panic: %v\n%s", p, shortStack())
 		}
 	}()
 	return oracle()
+}
+
+// SafeRes runs a comparison and converts a panic into a result with a
+// message.  R must have a field Msg.
+func SafeRes[R any](f func() R) (res R) {
+	defer func() {
+		if p := recover(); p != nil {
+			msg := fmt.Sprintf("panic: %v\n%s", p, shortStack())
+			setMsg(&res, msg)
+		}
+	}()
+	return f()
+}
+
+// shortStack returns the frames of the stack that belong to the code under
+// test (at most 8 lines).
+func shortStack() string {
+	lines := strings.Split(string(debug.Stack()), "\n")
+	var out []string
+	for i := 0; i+1 < len(lines) && len(out) < 8; i++ {
+		if strings.Contains(lines[i], "seehuhn.de/go/postscript") {
+			out = append(out, strings.TrimSpace(lines[i]), strings.TrimSpace(lines[i+1]))
+			i++
+		}
+	}
+	return strings.Join(out, "\n")
 }
